@@ -1341,12 +1341,31 @@ def Legal (r : RState) : Cmd → Prop
   | .dropDetached a => a ∈ r.det
   | _ => True
 
-instance (r : RState) (c : Cmd) : Decidable (Legal r c) := by
-  cases c <;> unfold Legal <;> infer_instance
+instance Legal.dec (r : RState) : (c : Cmd) → Decidable (Legal r c)
+  | .contains a => inferInstanceAs (Decidable (a ∈ r.l ∨ a ∈ r.det))
+  | .moveToBack a => inferInstanceAs (Decidable (a ∈ r.l))
+  | .unlink a => inferInstanceAs (Decidable (a ∈ r.l))
+  | .unlinkAndDrop a => inferInstanceAs (Decidable (a ∈ r.l))
+  | .nextOf a => inferInstanceAs (Decidable (a ∈ r.l))
+  | .relinkBack a => inferInstanceAs (Decidable (a ∈ r.det))
+  | .dropDetached a => inferInstanceAs (Decidable (a ∈ r.det))
+  | .push _ => isTrue trivial
+  | .popFront => isTrue trivial
+  | .peekFront => isTrue trivial
+  | .moveFrontToBack => isTrue trivial
+  | .iterNext => isTrue trivial
 
 def LegalSeq : RState → List Cmd → Prop
   | _, [] => True
   | r, c :: cs => Legal r c ∧ LegalSeq (rstep r c).1 cs
+
+def LegalSeq.dec : (r : RState) → (cs : List Cmd) → Decidable (LegalSeq r cs)
+  | _, [] => isTrue trivial
+  | r, c :: cs =>
+    have := LegalSeq.dec (rstep r c).1 cs
+    inferInstanceAs (Decidable (Legal r c ∧ LegalSeq (rstep r c).1 cs))
+
+instance (r : RState) (cs : List Cmd) : Decidable (LegalSeq r cs) := LegalSeq.dec r cs
 
 /-- The simulation invariant between model state and reference state. -/
 structure Sim (s : DState) (r : RState) : Prop where
